@@ -101,3 +101,38 @@ Arguments n_fixed {V}. Arguments expand {V}. Arguments restrict {V A}. Arguments
 Arguments cinit {V}. Arguments cfix {V}. Arguments cfree_names {V}. Arguments cn_fixed {V}.
 Arguments cexpand {V}. Arguments abs {V}. Arguments is_free {V}. Arguments cnames {V}. Arguments cbuf {V}.
 Arguments cwrite {V}.
+
+(* ---------------- renaming the free parameters of a reduced population model ----------------
+   Model of renaming the free parameters of a reduced population model (definitions only).
+   source                                                              model
+   ------------------------------------------------------------------  ---------------------------
+   PopulationModel names: base name + dimension name, published        pname, full
+     as "<base> <dimension>"
+   PopulationModel.set_parameter_names(bases)                          set_bases
+   ReducedPopulationModel.set_parameter_names(new): names of the       merge, rename (reads the names WITHOUT
+     wrapped model with the free entries overwritten, handed down        dimension names: d7c2aa2), rename_old
+                                                                         (read the published names) *)
+Local Open Scope string_scope.
+Definition pname := (string * string)%type.            (* base name, dimension name *)
+Definition full (p : pname) : string := fst p ++ " " ++ snd p.
+Definition set_bases (ps : list pname) (bases : list string) : list pname :=
+  map (fun pb => (snd pb, snd (fst pb))) (combine ps bases).
+(* fixed positions keep the name read from the wrapped model, free positions take the new names in order *)
+Fixpoint merge (mask : list bool) (keep new : list string) : list string :=
+  match mask, keep with
+  | true :: m, k :: ks => k :: merge m ks new
+  | false :: m, _ :: ks => match new with n :: ns => n :: merge m ks ns | [] => [] end
+  | _, _ => []
+  end.
+Definition rename (mask : list bool) (ps : list pname) (new : list string) : list pname :=
+  set_bases ps (merge mask (map fst ps) new).
+Definition rename_old (mask : list bool) (ps : list pname) (new : list string) : list pname :=
+  set_bases ps (merge mask (map full ps) new).
+Definition n_free (mask : list bool) : nat := List.length (filter negb mask).
+(* specification: the k-th free parameter gets the k-th new base name, everything else stays *)
+Fixpoint rename_spec (mask : list bool) (ps : list pname) (new : list string) : list pname :=
+  match mask, ps with
+  | true :: m, p :: r => p :: rename_spec m r new
+  | false :: m, p :: r => match new with n :: ns => (n, snd p) :: rename_spec m r ns | [] => [] end
+  | _, _ => []
+  end.
